@@ -427,7 +427,8 @@ def final_fields():
     a_this = Expr(FAsg(This(), "f", I(1)))
     a_bare = Expr(Asg("f", I(1)))
     lb = Bin("<", Var("p"), I(3))
-    forms = {"this": a_this, "bare": a_bare}
+    # ++ / -- is never a way to give a final field its value (postfix operators need a non-final int variable)
+    forms = {"this": a_this, "bare": a_bare, "post": Expr(Post("++", "f")), "postdec": Expr(Post("--", "f"))}
     for fname, a in forms.items():
         wraps = {
             "top": [a], "twice": [a, copy.deepcopy(a)], "none": [], "twice_mixed": [a_this, a_bare],
@@ -818,6 +819,23 @@ def generics():
                 out.append(case("ovl:name-str:" + tag, "type", ov_world(pre_v + [Decl(TY["str"], "r0", call("name", arg()))], order), "string r0 = name(%s)" % aname))
                 out.append(case("ovl:name-int:" + tag, "type", ov_world(pre_v + [Decl(TY["int"], "r0", call("name", arg()))], order), "int r0 = name(%s)" % aname))
                 out.append(case("ovl:loop:" + tag, "type", ov_world(pre_v + [For(Decl(TY["int"], "i", I(0)), Bin("<", Var("i"), call("pick", arg())), Asg("i", Bin("+", Var("i"), I(1))), [])], order), "i < pick(%s)" % aname))
+    # the implicit root class: a target declared 'Object' accepts every class reference and null - and nothing else
+    OBJ = C("Object")
+    for sname, src in sources():
+        e = lambda: copy.deepcopy(src)
+        w = World().fill("main", [Decl(OBJ, "r0", e())])
+        out.append(case("root:init:" + sname, "type", w, "%s into an initialiser of type Object" % sname))
+        w = World().fill("m_base", [Decl(OBJ, "r0", New("Base")), Expr(Asg("r0", e()))])
+        out.append(case("root:assign:" + sname, "type", w, "%s assigned to a variable of type Object" % sname))
+        w = World().fill("main", [Decl(C("RH"), "rh", New("RH")), Expr(FAsg(Var("rh"), "slot", e()))])
+        w.classes.append(Class("RH", fields=[Field(OBJ, "slot")], ctors=[Ctor([], [], default=True)], methods=[Method("put", [], VOID, pre() + [Expr(FAsg(This(), "slot", e()))])]))
+        out.append(case("root:field:" + sname, "type", w, "%s stored into a field of type Object" % sname))
+        w = World()
+        w.funcs.append(Func("rroot", [], OBJ, pre() + [Ret(e())]))
+        out.append(case("root:return:" + sname, "type", w, "%s returned as Object" % sname))
+        w = World().fill("main", [Expr(Call("takeroot", e()))])
+        w.funcs.append(Func("takeroot", [Param(OBJ, "v")], TY["int"], [Ret(I(0))]))
+        out.append(case("root:arg:" + sname, "type", w, "%s passed to a parameter of type Object" % sname))
     return out
 
 
